@@ -193,12 +193,12 @@ K = {"T1": ["T1", False], "T2": ["T2", False], "T3": ["T3", False], "T1u": ["T1"
 
 
 def lines_gen(L, D, E, kinds, unit="  ", base=0, free=(), ws=(), blank=True, suffix="", simulate=None, code_a="", code_b="",
-              mb=False, max_code=99, empty_default=False, pairs=False, preamble=0, inline=False, pair_kind="R", eol="\n", tag_sep=" ", flag_val="", quote="'", flags_first=False):
+              mb=False, max_code=99, empty_default=False, pairs=False, preamble=0, inline=False, pair_kind="R", eol="\n", tag_sep=" ", flag_val="", quote="'", flags_first=False, tail=False):
     from vlib import TlaSet
     g = {"base": "GenLines", "constraint": "Feasible",
          "consts": {"L": L, "D": D, "E": E, "Kinds": TlaSet([K[k] for k in kinds]), "Unit": Chars(unit), "Base": base,
                     "FreeInd": TlaSet(list(free)), "WsLens": TlaSet(list(ws)), "Blank": blank, "Suffix": Chars(suffix), "CodeA": Chars(code_a), "CodeB": Chars(code_b), "MbCode": mb, "MaxCode": max_code, "EmptyDefault": empty_default, "PairLines": pairs, "Preamble": preamble,
-                    "InlineTags": inline, "PairKind": K[pair_kind], "EOL": Chars(eol), "TagSep": Chars(tag_sep), "FlagVal": Chars(flag_val), "QuoteCh": ord(quote), "FlagsFirst": flags_first,
+                    "InlineTags": inline, "PairKind": K[pair_kind], "EOL": Chars(eol), "TagSep": Chars(tag_sep), "FlagVal": Chars(flag_val), "QuoteCh": ord(quote), "FlagsFirst": flags_first, "TailElems": tail,
                     "PastTo": Chars(PAST), "FutureTo": Chars(FUTURE),
                     "Tos": [Chars(t) for t in TOS], "Names": [Chars(n) for n in MNAMES]}}
     if simulate:
@@ -227,7 +227,7 @@ def kitchen_sink(ctx, kinds, L, n):
     return lines_gen(L, 3, 5, kinds, unit=["  ", "\t", " \t", "    "][sd % 4], base=sd % 2, free=(0, 1, 2), ws=(1, 2), blank=True,
                      suffix=["", "é", "あ"][sd % 3], tag_sep=[" ", "\n     "][(sd // 2) % 2], inline=True, pairs=True,
                      code_b=["", " = 1"][(sd // 3) % 2], flag_val=["", "='1'", '="true"'][(sd // 2) % 3], quote=["'", '"'][(sd + 1) % 2],
-                     flags_first=(sd % 3 == 1), simulate=(n, L))
+                     flags_first=(sd % 3 == 1), tail=True, simulate=(n, L))
 
 
 def block_jobs(ctx, invariants, ops, lite=False):
@@ -249,6 +249,7 @@ def block_jobs(ctx, invariants, ops, lite=False):
                 lines_gen(4, 1, 1, ["R"], unit="\t ", base=2, blank=True),
                 lines_gen(4, 2, 2, ["R", "S", "P"], blank=False, flag_val="='1'"),                   # valued flag attribute: skip='1'
                 lines_gen(4, 2, 2, ["R", "S", "T"], blank=False, quote='"', flags_first=True),
+                lines_gen(4, 2, 2, ["R", "P"], blank=True, tail=True, max_code=2),                      # elements behind code on one line
                 lines_gen(14, 3, 5, ["R", "P", "S", "SP", "SF", "U", "T", "F"], ws=(2,), base=ctx.seed % 2, simulate=(15 if lite else 80, 14)),
                 kitchen_sink(ctx, ["R", "P", "S", "U", "T", "F"], 12, 10 if lite else 40),
                 dict(lines_gen(5 - d // 2, 2, 2, ["R", "P", "T"], ws=(2,)), cfg=html)]
@@ -263,6 +264,7 @@ def block_jobs(ctx, invariants, ops, lite=False):
         ("block-sim", [lines_gen(14, 3, 5, ["R", "P", "S", "SP", "SF", "U", "T", "F"], ws=(2,), base=ctx.seed % 2, simulate=(20000, 14)),
                        kitchen_sink(ctx, ["R", "P", "S", "U", "T", "F"], 14, 6000)]),
         ("block-html", [dict(lines_gen(7, 2, 2, ["R", "P", "T"], ws=(2,)), cfg=html)]),
+        ("block-tail-elements", [lines_gen(7, 2, 2, ["R", "P"], blank=True, tail=True, max_code=3)]),
         ("block-valued-flags", [lines_gen(7, 2, 2, ["R", "S", "P"], blank=False, flag_val="='1'"), lines_gen(6, 2, 2, ["R", "S"], flag_val='=""'),
                                 lines_gen(7, 2, 2, ["R", "S", "T"], blank=False, quote='"', flags_first=True)]),
         ("block-two-line-tags", [lines_gen(7, 2, 2, ["R", "P", "T"], base=1, blank=True, tag_sep="\n     "),
@@ -297,6 +299,7 @@ def unwrap_jobs(ctx, invariants, ops, lite=False):
                 lines_gen(6, 1, 1, ["Ru"], free=(0, 2), blank=False, flag_val='="true"'),          # valued flag: unwrap-block="true"
                 lines_gen(6, 2, 2, ["Ru", "Su"], free=(1,), blank=False, flag_val="='1'"),
                 lines_gen(6, 2, 2, ["Ru", "Tu", "P"], free=(1,), blank=False, quote='"', flags_first=True),   # flags first, double quotes
+                lines_gen(6, 2, 2, ["Ru", "R"], blank=False, tail=True, max_code=2),
                 lines_gen(16, 3, 4, ["Ru", "R", "P", "Pu", "S", "Su"], free=(0, 1, 2), ws=(2,), simulate=(15 if lite else 80, 16)),
                 kitchen_sink(ctx, ["Ru", "R", "P", "Pu", "T", "Tu", "Su"], 14, 10 if lite else 40)]
         ctx.job("unwrap", gens=gens, invariants=invariants, ops=ops, cfg=cfg, nontrivial=has_ready)
@@ -317,6 +320,7 @@ def unwrap_jobs(ctx, invariants, ops, lite=False):
         ("unwrap-interior-blanks", [lines_gen(8, 1, 1, ["Ru"], free=(0, 1, 2), blank=False, base=1, code_b=" = 1"),
                                     lines_gen(8, 1, 1, ["Ru"], unit="\t", free=(0, 2), blank=False, base=1, code_a=" "),
                                     lines_gen(9, 2, 2, ["Ru", "R"], unit="    ", free=(0,), blank=False, base=1, code_b=" = 1 ")]),
+        ("unwrap-tail-elements", [lines_gen(8, 2, 2, ["Ru", "R", "P"], blank=False, tail=True, max_code=3)]),
         ("unwrap-flags", [lines_gen(8, 2, 2, ["Ru", "Su", "Pu"], free=(1,), blank=False),
                           lines_gen(8, 1, 1, ["Ru"], free=(0, 1, 2), blank=False, flag_val='="true"'),
                           lines_gen(8, 2, 2, ["Ru", "Su", "R"], free=(1,), blank=False, flag_val="='1'"),
@@ -360,7 +364,8 @@ def conformance_job(ctx, invariants):
     gens = [lines_gen(4 if q else 6, 2, 2, ["R", "P", "Ru"], ws=(2,)),
             lines_gen(6 if q else 8, 2, 2, ["Ru", "R"], blank=False, base=1),
             lines_gen(4 if q else 6, 2, 2, ["T", "F", "Pu"], unit="\t", base=1, suffix="é"),
-            lines_gen(4 if q else 5, 2, 2, ["R", "P", "Ru"], ws=(2,), eol="\r\n")]          # CRLF: CR is an ordinary character
+            lines_gen(4 if q else 5, 2, 2, ["R", "P", "Ru"], ws=(2,), eol="\r\n"),          # CRLF: CR is an ordinary character
+            lines_gen(4 if q else 5, 2, 2, ["R", "P", "Ru"], blank=True, tail=True, max_code=2)]   # elements behind code on one line
     ctx.job("conformance", gens=gens, invariants=invariants,
             ops=[{"op": "tokenize"}, {"op": "tree"}, {"op": "clean"}, {"op": "list_json"}, {"op": "list_all_json"},
                  {"op": "list"}, {"op": "list_all"}],
@@ -476,8 +481,21 @@ def truncated_closer_job(ctx, invariants):
     ctx.job("truncated-closers", gens=gens, invariants=invariants, ops=[{"op": "clean"}], cfg={"ds": "<", "de": ">"}, nontrivial=has_ready)
 
 
+def time_probe_job(ctx, invariants):
+    """a one-element time-limited probe document cleaned along a clock grid around its expiry instant, under offsets of
+    both signs and both spellings: "unexpired" depends on the configured offset as much as on the clock"""
+    from vlib import TlaSet
+    q = ctx.quick
+    consts = {"ToValues": [Chars(t) for t in (CANON_TOS[:3] if q else CANON_TOS[:6])], "BadTos": [Chars(t) for t in BAD_TOS],
+              "OffMinutes": TlaSet([0, 540, -480, 345, 840, -720] if q else [0, 60, 540, -60, -300, -480, 345, -570, 840, -720]),
+              "BadOffsets": [Chars(o) for o in BAD_OFFS], "Deltas": DELTAS, "Probe": True}
+    ctx.job("time-probe", gens=[{"base": "GenTime", "consts": consts}], invariants=invariants, ops=[],
+            cfg={"ds": "<", "de": ">", "tl": "tl", "rm": "rm"}, nontrivial=None)
+
+
 def check_C04(ctx):
     truncated_closer_job(ctx, ["Inv_C04"])
+    time_probe_job(ctx, ["Inv_C04"])
     block_jobs(ctx, ["Inv_C04"], [{"op": "clean"}])
     unwrap_jobs(ctx, ["Inv_C04"], [{"op": "clean"}], lite=True)
     inline_jobs(ctx, ["Inv_C04"], [{"op": "clean"}])
@@ -657,9 +675,9 @@ def check_C06(ctx):
 
 
 def tag_consts(k, full):
-    vals = ["", "a", "a b", "x=y", "it's", '"q"', "skip", "unwrap-block", "to='2000-01-01 00:00:00'", "<", "l1\nl2"]
+    vals = ["", "a", "a b", "x=y", "it's", '"q"', "skip", "unwrap-block", "to='2000-01-01 00:00:00'", "<", "l1\nl2", "C:\\dir\\", "\\"]
     if not full:
-        vals = ["", "a", "a b", "x=y", "it's", '"q"', "skip", "l1\nl2", "<"]
+        vals = ["", "a", "a b", "x=y", "it's", '"q"', "skip", "l1\nl2", "<", "a\\"]
     return {"TagNames": [Chars("rm"), Chars("tl")] if full else [Chars("rm")],
             "AttrNames": [Chars(x) for x in (["name", "to", "skip", "c", "unwrap-block"] if full else ["name", "skip", "c"])],
             "Values": [Chars(v) for v in vals],
@@ -759,7 +777,8 @@ def hist_model_checking(ctx):
     q = ctx.quick
     for (nm, g) in [("time", lines_gen(5 if q else 6, 2, 2, ["T1", "T2", "T3"], blank=False)),
                     ("unwrap-later", lines_gen(6 if q else 7, 2, 2, ["T2u", "T1", "M1"], blank=True)),
-                    ("unwrap-first", lines_gen(6 if q else 7, 2, 2, ["T1u", "T2", "M2u"], blank=False))]:
+                    ("unwrap-first", lines_gen(6 if q else 7, 2, 2, ["T1u", "T2", "M2u"], blank=False)),
+                    ("tail-elements", lines_gen(5 if q else 6, 2, 2, ["T1", "T2u"], blank=False, tail=True, max_code=2))]:
         consts = dict(base_consts(dict(DEFAULT_CFG, targets=[]), [], "mc"))
         consts.update(g["consts"])
         consts["Clocks"] = [[11474, 0], [11839, 0], [12204, 0]]
@@ -804,6 +823,8 @@ def check_C19(ctx):
         ("hist-unwrap", lines_gen(7 if q else 9, 2, 2, ["T1u", "T2", "T3u"] if q else ["T1u", "T2u", "T1", "T2", "T3"], blank=False)),
         ("hist-marker", lines_gen(6 if q else 8, 2, 2, ["M1", "M2u", "M3"], blank=True)),
         ("hist-touching", lines_gen(5 if q else 7, 2, 2, ["M2", "M2u"], blank=False, pairs=True, pair_kind="M1", max_code=3)),
+        # elements wholly on one line behind code, inside and around unwrap-blocks that expire later
+        ("hist-tail", lines_gen(6 if q else 8, 2, 2, ["T1", "T2u"], blank=False, tail=True, max_code=2 if q else 3)),
     ]
     for (name, g) in sets:
         g["base"] = "GenHist"
